@@ -20,7 +20,11 @@ Record obs := mkObs {
   o_bals : list (list Z);                      (* accounts (actors, ESC, BLK) x denoms *)
   o_sups : list (option (Z * Z * Z * Z * Z));  (* per asset: incoming, outgoing, current, time-limited current, elapsed *)
   o_bsups : list Z;                            (* bank supply per asset denom *)
-  o_prev : Z }.                                (* previous block time *)
+  o_prev : Z;                                  (* previous block time *)
+  o_params : list aparam }.                    (* the stored asset parameters (Params query) *)
+
+#[export] Instance EqDec_aparam : EqDec aparam.
+Proof. intros x y. decide equality; try apply Z.eq_dec; apply Bool.bool_dec. Defined.
 
 Inductive cop :=
 | CCreate (idx : Z) (m : create_msg)
@@ -38,7 +42,8 @@ Record dobs := mkD {
   d_queue : option (list (Z * Z));                   (* [None]: unchanged *)
   d_bals : list (Z * Z * Z);                         (* account row, denom column, new value *)
   d_sups : list (Z * option (Z * Z * Z * Z * Z));    (* asset position, new value *)
-  d_bsups : list (Z * Z) }.
+  d_bsups : list (Z * Z);
+  d_params : option (list aparam) }.                 (* [None]: unchanged *)
 
 Record case := mkCase {
   k_params : list aparam; k_nactors : Z; k_ids : list cid; k_obs0 : obs; k_steps : list (cop * dobs) }.
@@ -65,7 +70,8 @@ Definition undiff (po : obs) (d : dobs) : obs :=
                (d_bals d) (o_bals po))
     (fold_left (fun l (e : Z * option (Z * Z * Z * Z * Z)) => replace_at (Z.to_nat (fst e)) (snd e) l) (d_sups d) (o_sups po))
     (fold_left (fun l (e : Z * Z) => replace_at (Z.to_nat (fst e)) (snd e) l) (d_bsups d) (o_bsups po))
-    (d_prev d).
+    (d_prev d)
+    (match d_params d with Some P => P | None => o_params po end).
 
 (** ** helpers *)
 Definition nthZ {A} (i : Z) (l : list A) : option A := if i <? 0 then None else nth_error l (Z.to_nat i).
@@ -107,7 +113,8 @@ Definition corr_obs (k : case) (s : state) (code : Z) (o : obs) : bool :=
   && forallb (fun e : Z * cid => existsb (fun q : Z * Z => (fst q =? fst e) && (snd q =? index_from (snd e) (k_ids k) 0)) (o_queue o)) (st_queue s)
   && eqb (o_bals o) (map (fun a => map (fun d => bal (st_bank s) a d) (denoms_of o)) (accounts k))
   && eqb (o_sups o) (map (fun p => option_map (fun a => (as_in a, as_out a, as_cur a, as_tlc a, as_el a)) (get (ap_denom p) (st_assets s))) (k_params k))
-  && eqb (o_bsups o) (map (fun p => sup_of (st_supply s) (ap_denom p)) (k_params k)).
+  && eqb (o_bsups o) (map (fun p => sup_of (st_supply s) (ap_denom p)) (k_params k))
+  && eqb (o_params o) (st_params s).
 
 (** well-formedness of a create step of the case: its table position names the model's id *)
 Definition op_wf (k : case) (c : cop) : bool :=
@@ -216,7 +223,10 @@ Definition same_view (po o : obs) : bool :=
 
 Definition first_nonzero (l : list Z) : Z := match filter (fun x => negb (x =? 0)) l with x :: _ => x | [] => 0 end.
 
-Definition p03 (k : case) (po : obs) (c : cop) (o : obs) : Z :=
+(** [strict]: "a claim succeeds IF AND ONLY IF it presents the pre-image of an open contract"; after an
+    incompatible parameter change only "... ONLY IF ..." is demanded (a valid claim of an incoming transfer
+    may then legitimately be refused by the supply limits) *)
+Definition p03 (k : case) (strict : bool) (po : obs) (c : cop) (o : obs) : Z :=
   let h0 := o_height po in
   let h1 := o_height o in
   let sm := if forallb2 (trans_ok h0 h1) (o_contracts po) (o_contracts o) then 0 else 1 in
@@ -241,7 +251,7 @@ Definition p03 (k : case) (po : obs) (c : cop) (o : obs) : Z :=
                     | Some (Some p') => (c_state_of p' =? 0) && eqb (secret, c_ts_of p') (id_hl id) && (0 <=? who)
                     | _ => false
                     end in
-      if negb (eqb (o_code o =? 0) expect) then 3
+      if (if strict then negb (eqb (o_code o =? 0) expect) else (o_code o =? 0) && negb expect) then 3
       else if negb (o_code o =? 0) then (if same_view po o then 0 else 5)
       else
         let opv := match nthZ idx (o_contracts po), nthZ idx (o_contracts o) with
@@ -284,12 +294,17 @@ Definition is_open (c : cobs) : bool := c_state_of c =? 0.
 (** window bookkeeping of the monitor, per asset: (elapsed, completed incoming in this window);
     the windows are those of the reset rule (keeper/asset.go UpdateTimeBasedSupplyLimits) applied to
     the block times of the history *)
-Definition wtick (dt : Z) (pw : aparam * (Z * Z)) : Z * Z :=
-  let '(p, (el, w)) := pw in
-  if ap_tl p && (el + dt <? ap_period p) then (el + dt, w) else (0, 0).
+Definition wtick (P : list aparam) (dt : Z) (pw : aparam * (Z * Z)) : Z * Z :=
+  let '(p0, (el, w)) := pw in
+  match get_param P (ap_denom p0) with
+  | Some p => if ap_tl p && (el + dt <? ap_period p) then (el + dt, w) else (0, 0)
+  | None => (el, w)          (* no parameters for this asset: the begin blocker does not touch its record *)
+  end.
 
-Definition wticks (k : case) (ws : list (Z * Z)) (dts : list Z) : list (Z * Z) :=
-  fold_left (fun ws dt => map (wtick dt) (combine (k_params k) ws)) dts ws.
+(** [P] = the asset parameters in force (the stored parameters as observed); the positions of the
+    bookkeeping are those of the case's genesis list [k_params k] (the universe of assets) *)
+Definition wticks (k : case) (P : list aparam) (ws : list (Z * Z)) (dts : list Z) : list (Z * Z) :=
+  fold_left (fun ws dt => map (wtick P dt) (combine (k_params k) ws)) dts ws.
 
 Definition wclaims (k : case) (po o : obs) (ws : list (Z * Z)) : list (Z * Z) :=
   map (fun pw : aparam * (Z * Z) =>
@@ -305,7 +320,7 @@ Definition wclaims (k : case) (po o : obs) (ws : list (Z * Z)) : list (Z * Z) :=
 
 (** 0 = holds; 1 escrow_eq_open, 2 incoming_outgoing_eq_open, 3 current_eq_minted_minus_burned
     (and = bank supply), 4 limits_respected *)
-Definition p04 (k : case) (o : obs) (ws : list (Z * Z)) : Z :=
+Definition p04 (k : case) (lim : bool) (P : list aparam) (o : obs) (ws : list (Z * Z)) : Z :=
   let esc := match nthZ (k_nactors k) (o_bals o) with Some r => r | None => [] end in
   let c1 := eqb esc (map (fun d => sum_where k o (fun c => is_open c && locks c) d) (denoms_of o)) in
   let per_asset (f : aparam -> (Z * Z * Z * Z * Z) -> Z -> Z * Z -> bool) : bool :=
@@ -321,20 +336,29 @@ Definition p04 (k : case) (o : obs) (ws : list (Z * Z)) : Z :=
               let net := sum_where k o (fun c => (c_state_of c =? 1) && (c_tr_of c =? 1) && (c_dir_of c =? 1)) (ap_denom p)
                          - sum_where k o (fun c => (c_state_of c =? 1) && (c_tr_of c =? 1) && (c_dir_of c =? 2)) (ap_denom p) in
               (cur =? net) && (b =? net)) in
-  let c4 := per_asset (fun p s _ w =>
+  let c4 := per_asset (fun p0 s _ w =>
               let '(i, og, cur, _, _) := s in
-              (cur + i <=? ap_limit p) && (0 <=? og) && (og <=? cur) && (negb (ap_tl p) || (snd w <=? ap_tbl p))) in
-  if negb c1 then 1 else if negb c2 then 2 else if negb c3 then 3 else if negb c4 then 4 else 0.
+              match get_param P (ap_denom p0) with   (* the limits of the parameters IN FORCE *)
+              | Some p => (cur + i <=? ap_limit p) && (0 <=? og) && (og <=? cur) && (negb (ap_tl p) || (snd w <=? ap_tbl p))
+              | None => true
+              end) in
+  if negb c1 then 1 else if negb c2 then 2 else if negb c3 then 3 else if lim && negb c4 then 4 else 0.
 
 (** ** one pass over the case *)
 Record verdict := mkV { v_corr : Z; v_p03 : Z; v_c03 : Z; v_p04 : Z; v_c04 : Z }.
 
-(** [act]: the property monitors are evaluated only up to and including the first parameter change of a
-    case: they (and the theorems) are about histories with unchanged asset parameters; after a change the
-    correspondence alone is checked (the model applies the new parameters like the code). *)
+(** Parameter changes.  The limit clauses of [p04] and the window bookkeeping use the parameters IN FORCE
+    (the stored parameters as observed, [o_params]).  Two flags:
+    - [full]: everything is checked.  It stays on across rejected and across COMPATIBLE accepted changes
+      ([compat_b] on the model state: denoms kept, the new limits cover the usage) - the histories of the
+      main theorems.
+    - after an INCOMPATIBLE accepted change that keeps the denoms ([same_denoms_b]) the monitors go on
+      WITHOUT the limit clause of [p04] and with the "only if" half of the claim clause of [p03] - what
+      Htlc/CoreHist.v proves for every such history ([act] on, [full] off);
+    - after a change that removes or adds an asset only the correspondence is checked ([act] off). *)
 Definition is_setparams (c : cop) : bool := match c with CSetParams _ _ => true | _ => false end.
 
-Fixpoint check_from (k : case) (act : bool) (s : state) (po : obs) (ws : list (Z * Z)) (steps : list (cop * dobs)) (i : Z) (v : verdict) : verdict :=
+Fixpoint check_from (k : case) (act full : bool) (s : state) (po : obs) (ws : list (Z * Z)) (steps : list (cop * dobs)) (i : Z) (v : verdict) : verdict :=
   match steps with
   | [] => v
   | (c, d) :: rest =>
@@ -343,19 +367,29 @@ Fixpoint check_from (k : case) (act : bool) (s : state) (po : obs) (ws : list (Z
       let s' := step s mo in
       let code := if step_ok s mo then 0 else 1 in
       let corr := if (v_corr v <? 0) && negb (op_wf k c && corr_obs k s' code o) then i else v_corr v in
-      let r03 := if act then p03 k po c o else 0 in
+      let incompatible := match c with
+                          | CSetParams _ P' => (o_code o =? 0) && negb (compat_b s P')
+                          | _ => false
+                          end in
+      let denoms_changed := match c with
+                            | CSetParams _ P' => (o_code o =? 0) && negb (same_denoms_b s P')
+                            | _ => false
+                            end in
+      let act' := act && negb denoms_changed in
+      let full' := full && negb incompatible in
+      let r03 := if act then p03 k full po c o else 0 in
       let ws' := match c with
-                 | CAdv dts => wticks k ws dts
-                 | CAdvN n dt => wticks k ws (repeat dt (Z.to_nat n))
+                 | CAdv dts => wticks k (o_params po) ws dts
+                 | CAdvN n dt => wticks k (o_params po) ws (repeat dt (Z.to_nat n))
                  | _ => wclaims k po o ws
                  end in
-      let r04 := if act then p04 k o ws' else 0 in
+      let r04 := if act' then p04 k full' (o_params o) o ws' else 0 in
       let v' := mkV corr
                     (if (v_p03 v <? 0) && negb (r03 =? 0) then i else v_p03 v)
                     (if (v_p03 v <? 0) && negb (r03 =? 0) then r03 else v_c03 v)
                     (if (v_p04 v <? 0) && negb (r04 =? 0) then i else v_p04 v)
                     (if (v_p04 v <? 0) && negb (r04 =? 0) then r04 else v_c04 v) in
-      check_from k (act && negb (is_setparams c)) s' o ws' rest (i + 1) v'
+      check_from k act' full' s' o ws' rest (i + 1) v'
   end.
 
 (** ** the hypotheses of the theorems of Props/C03.v and Props/C04.v, decided per case: asset limits
@@ -363,12 +397,14 @@ Fixpoint check_from (k : case) (act : bool) (s : state) (po : obs) (ws : list (Z
     naming the escrow account as recipient ([Htlc/Sound.v]: [hyps_b k = true] implies them).  A case
     outside [hyps0_b] (the same without "no parameter change") is a harness defect and is reported as a
     divergence at step 0. *)
-Definition wf_op_b (o : op) : bool :=
+Definition wf_op_b (s : state) (o : op) : bool :=
   match o with
   | Create m => negb (m_sender m =? ESC) && negb (m_sender m =? BLK)
-  | SetParams _ _ => false
+  | SetParams _ P' => negb (step_ok s o) || compat_b s P'
   | _ => true
   end.
+Fixpoint wf_run_b (s : state) (ops : list op) : bool :=
+  match ops with [] => true | o :: rest => wf_op_b s o && wf_run_b (step s o) rest end.
 (** the part of the hypotheses every case must satisfy (parameter changes are allowed in a case) *)
 Definition wf_sign_b (o : op) : bool :=
   match o with
@@ -380,7 +416,8 @@ Definition escrow_empty_b (l : ledger) : bool :=
   forallb (fun e : acct * denom * Z => negb (fst (fst e) =? ESC) || (snd e =? 0)) l.
 Definition case_ops (k : case) : list op := map (fun cd : cop * dobs => to_op k (fst cd)) (k_steps k).
 Definition hyps_b (k : case) : bool :=
-  params_ok_b (k_params k) && escrow_empty_b (bank_of k (k_obs0 k)) && forallb wf_op_b (case_ops k).
+  params_ok_b (k_params k) && escrow_empty_b (bank_of k (k_obs0 k))
+  && wf_run_b (init (k_params k) (bank_of k (k_obs0 k)) (o_time (k_obs0 k))) (case_ops k).
 Definition hyps0_b (k : case) : bool :=
   params_ok_b (k_params k) && escrow_empty_b (bank_of k (k_obs0 k)) && forallb wf_sign_b (case_ops k).
 
@@ -388,8 +425,8 @@ Definition check_all (k : case) : verdict :=
   let s0 := init (k_params k) (bank_of k (k_obs0 k)) (o_time (k_obs0 k)) in
   let ws0 := map (fun _ => (0, 0)) (k_params k) in
   let v0 := mkV (if corr_obs k s0 0 (k_obs0 k) && hyps0_b k then -1 else 0) (-1) 0
-                (if p04 k (k_obs0 k) ws0 =? 0 then -1 else 0) (p04 k (k_obs0 k) ws0) in
-  check_from k true s0 (k_obs0 k) ws0 (k_steps k) 0 v0.
+                (if p04 k true (o_params (k_obs0 k)) (k_obs0 k) ws0 =? 0 then -1 else 0) (p04 k true (o_params (k_obs0 k)) (k_obs0 k) ws0) in
+  check_from k true true s0 (k_obs0 k) ws0 (k_steps k) 0 v0.
 
 (** (first diverging step or -1, first step violating the property or -1, violated clause) *)
 Definition check_case_C03 (k : case) : Z * Z * Z := let v := check_all k in (v_corr v, v_p03 v, v_c03 v).
